@@ -11,7 +11,12 @@
 (***************************************************************************)
 EXTENDS Http, Sequences, FiniteSets, Json
 
-CONSTANTS IdSet, MaxReq, PrintCases, RichRequests
+CONSTANTS IdSet, MaxReq, PrintCases, RichRequests,
+          StartPresent,  \* simulation: begin after an acknowledged /init (part of the case)
+          WAddOk, WAddBad, WCommit, WMaint
+             \* simulation only: TLC's simulator picks an *action* (a disjunct of the
+             \* next-state relation after splitting \E over constant sets) uniformly,
+             \* so replicating a disjunct w times gives it weight w; all 1 when exhaustive
 
 VARIABLES nver,   \* next version number
           hist    \* requests so far (ghost; hidden by VIEW in exhaustive mode)
@@ -35,16 +40,26 @@ IdLists ==
 
 Log(req) == hist' = Append(hist, req)
 
-MCInit == HttpInit /\ nver = 1 /\ hist = <<>>
+InitReq == [ep |-> "init", valid |-> TRUE]
+
+MCInit ==
+  /\ present = StartPresent
+  /\ queue = <<>> /\ contents = EmptyContents /\ visible = {EmptyContents}
+  /\ acked = <<>> /\ expected = EmptyContents
+  /\ nver = 1
+  /\ hist = IF StartPresent THEN <<InitReq>> ELSE <<>>
 
 DoInit ==
   \E v \in BOOLEAN :
     LET req == [ep |-> "init", valid |-> v] IN
     Init(req) /\ Log(req) /\ UNCHANGED nver
 
-DoAdd ==
-  \E ep \in {"add", "bulk"}, docs \in DocLists :
+DoAdd(allValid) ==
+  \E ep \in {"add", "bulk"}, docs \in {d \in DocLists : (Kinds(d) \subseteq {"valid"}) = allValid} :
     LET req == [ep |-> ep, docs |-> docs] IN
+    \* /bulk differs from /add only in refusing an empty list: in the exhaustive
+    \* configuration it is explored with single documents and the empty list only
+    /\ (ep = "bulk" /\ ~RichRequests) => Len(docs) <= 1
     /\ (Add(req) \/ Bulk(req))
     /\ nver' = nver + Len(docs)
     /\ Log(req)
@@ -59,7 +74,13 @@ DoRefresh == Refresh /\ Log([ep |-> "refresh"]) /\ UNCHANGED nver
 DoCompact == Compact /\ Log([ep |-> "compact"]) /\ UNCHANGED nver
 DoSearch  == (\E obs \in visible : Search(obs)) /\ Log([ep |-> "search"]) /\ UNCHANGED nver
 
-MCNext == DoInit \/ DoAdd \/ DoDelete \/ DoCommit \/ DoRefresh \/ DoCompact \/ DoSearch
+MCNext ==
+  \/ DoInit
+  \/ \E w \in 1..WAddOk : DoAdd(TRUE)
+  \/ \E w \in 1..WAddBad : DoAdd(FALSE)
+  \/ DoDelete
+  \/ \E w \in 1..WCommit : DoCommit
+  \/ \E w \in 1..WMaint : DoRefresh \/ DoCompact \/ DoSearch
 
 MCSpec == MCInit /\ [][MCNext]_mcVars
 
